@@ -69,12 +69,12 @@ fn uris() -> Vec<(&'static str, &'static str)> {
     ]
 }
 
-/// same printer-uri: host compared ignoring ASCII case, "" == "/" as path, everything else exact
-fn uri_equiv(want: &str, have: &str) -> bool {
+/// same printer-uri (scheme ipps also accepted for a TLS target, as C13 states): host compared ignoring ASCII case, "" == "/" as path, everything else exact
+fn uri_equiv(want: &str, have: &str, tls_target: bool) -> bool {
     match (vmc::uri::split(want), vmc::uri::split(have)) {
         (Some(a), Some(b)) => {
             let p = |s: &str| if s.is_empty() { "/".to_string() } else { s.to_string() };
-            a.scheme == b.scheme && a.userinfo == b.userinfo && a.host.eq_ignore_ascii_case(&b.host) && a.port == b.port && p(&a.path) == p(&b.path) && a.query == b.query
+            (a.scheme == b.scheme || (a.scheme == "ipp" && b.scheme == "ipps" && tls_target)) && a.userinfo == b.userinfo && a.host.eq_ignore_ascii_case(&b.host) && a.port == b.port && p(&a.path) == p(&b.path) && a.query == b.query
         }
         _ => false,
     }
@@ -414,7 +414,7 @@ fn c10_judge(sp: &Spec, req: IppRequestResponse, payload: &[u8]) -> Result<u64, 
                 if let (Some(Val::Str(r1::T_URI, wb)), [Val::Str(r1::T_URI, hb)]) = (w.first(), &h[..]) {
                     let ws = String::from_utf8_lossy(wb).to_string();
                     let hs = String::from_utf8_lossy(hb).to_string();
-                    let same = uri_equiv(&ws, &hs);
+                    let same = uri_equiv(&ws, &hs, uris()[sp.uri].0.starts_with("https") || uris()[sp.uri].0.starts_with("ipps"));
                     if !same {
                         return Err((format!("{}:printer-uri", name), format!("printer-uri {} instead of {} for target {}", hs, ws, uris()[sp.uri].0)));
                     }
@@ -588,7 +588,7 @@ fn raw_constructors(st: &mut Stats) {
                         if let Some(d) = exp.diff(&got) {
                             let tolerable = ui < uris().len() && d.contains("printer-uri") && {
                                 let have = got.groups[0].1.get(&b"printer-uri".to_vec()).cloned();
-                                let ok = matches!(have.as_deref(), Some([Val::Str(r1::T_URI, b)]) if uri_equiv(uris()[ui].1, &String::from_utf8_lossy(b)));
+                                let ok = matches!(have.as_deref(), Some([Val::Str(r1::T_URI, b)]) if uri_equiv(uris()[ui].1, &String::from_utf8_lossy(b), uris()[ui].0.starts_with("https") || uris()[ui].0.starts_with("ipps")));
                                 ok && {
                                     let mut e2 = exp.clone();
                                     e2.groups[0].1.insert(b"printer-uri".to_vec(), have.clone().unwrap());
